@@ -92,6 +92,7 @@ def _proc(args) -> Dict[str, Any]:
     for op in ops:
         ans: Dict[str, Any] = {}
         try:
+            common.arm(90)
             if op["op"] == "chdir":
                 os.chdir(os.path.join(base, "elsewhere") if os.getcwd() == os.path.realpath(home) or os.getcwd() == home else home)
                 ans = {"executed": False, "value": ["ok"]}
@@ -120,6 +121,7 @@ def _proc(args) -> Dict[str, Any]:
         except BaseException as e:
             ans = {"executed": False, "value": ["EXC", type(e).__name__, str(e)[:160]]}
         out.append(ans)
+    common.disarm()
     return {"answers": out}
 
 
